@@ -14,7 +14,11 @@ FAMILIES = ['planar', 'toric', 'rotatedtoric']
 def run(ctx):
     bound = ctx.scale(5, 9)
     done = []
+    import os
+    only = os.environ.get('QV_FAMILIES')
     for fam in FAMILIES:
+        if only and fam not in only.split(','):
+            continue
         try:
             m = importlib.import_module('qv.families.' + fam)
         except ImportError:
